@@ -3,5 +3,6 @@ from contracts.C03_container_validate import ContainerValidate
 from contracts.C04_field_validate import ArrayValidate
 from contracts.C05_component_restore import RunSchemaComponentChecks
 from contracts.C06_run_checks import ArrayCollect, ArrayCollectPrefix
+from contracts.C03_polars_container_validate import PolarsContainerValidate
 
-CONTRACTS = [ArrayCollect, ArrayCollectPrefix, RunSchemaComponentChecks, ContainerValidate, ArrayValidate]
+CONTRACTS = [ArrayCollect, ArrayCollectPrefix, RunSchemaComponentChecks, ContainerValidate, ArrayValidate, PolarsContainerValidate]
